@@ -675,6 +675,13 @@ func c35behExec(arg string) Result {
 				break
 			}
 			if outG[i] != lines[i] {
+				if callsS[i] != "" && outG[i] == outS[i] {
+					// the hand-specialised copy evaluated by gomacro deviates from Go in the same way:
+					// generic = specialised holds, the difference is not about generics (e.g. gomacro's
+					// Push(l *L, x bool) on a recursive struct: "reflect.Value.Bool on struct Value")
+					res.Tags = append(res.Tags, "beh-gomacro-differs-from-go-without-generics-too")
+					continue
+				}
 				fail("instance-differs-from-compiled-go", fmt.Sprintf("%s = %q, compiled Go = %q", callsG[i], outG[i], lines[i]))
 			}
 		}
